@@ -251,6 +251,7 @@ theorem handleUpsert_frame0 (p : Params) (s : SState) (key : Nat) (hash : UInt64
     (oldW newW : Nat) : Frame0 s (handleUpsert p s key hash ve oldW newW) := by
   unfold handleUpsert
   dsimp only
+  generalize currentWeight p s key ve newW = newW
   have h0 : Frame0 s (withInfo s ve.info (fun i => { i with dirty := false })) :=
     frame0_withInfo' _ _ _
   refine Frame0.trans h0 ?_
